@@ -12,6 +12,11 @@
 #include "message/Message.h"
 #include "support/Archivable.h"
 
+#ifndef MUSCLE_MAX_QUERY_EXPRESSION_NESTING_DEPTH
+/** The maximum depth to which parenthesized subexpressions may be nested in a string passed to CreateQueryFilterFromExpression().  (The parser is recursive, so this bounds its stack usage) */
+# define MUSCLE_MAX_QUERY_EXPRESSION_NESTING_DEPTH 256
+#endif
+
 namespace muscle {
 
 class DataNode;
@@ -1345,6 +1350,8 @@ void SetGlobalQueryFilterFactory(const QueryFilterFactoryRef & newFactory);
   * @note for a fuller description of the syntax and semantics of the strings you can
   *       pass in to this function, see the "Building a QueryFilter from an expression-String"
   *       section at the bottom of muscle/html/Beginners Guide.html
+  * @note parenthesized subexpressions may be nested at most MUSCLE_MAX_QUERY_EXPRESSION_NESTING_DEPTH levels deep;
+  *       an expression that nests deeper than that is rejected with an error.
   */
 ConstQueryFilterRef CreateQueryFilterFromExpression(const String & expressionStr, const ISubexpressionFactory * optSubExpressionFactory = NULL);
 
